@@ -3,7 +3,8 @@
    as they are after the fix: commits); single-specifier semantics from SpecContains.  A frozenset is the list of first occurrences
    under Specifier.__eq__; its iteration order is an arbitrary permutation, so results are proved invariant under Permutation.
    Standing premises, named where used:
-     wf_set S / wf_member sp  - no operator method raises on a member (holds for everything `Specifier` accepts: SpecLink.compare_op_total);
+     wf_set S / wf_member sp  - no operator method raises on a member; discharged below (theorems C05_wf_...) for everything the constructors
+                                accept, through SpecLink.compare_op_total;
      respects l               - members of l that are == as Specifier objects match the same candidates (C10's clause; trivially true
                                 when l holds no two different spellings of equal clauses: respects_of_literal);
      reparses sp              - str(member) parses back to the member, is stripped and comma-free (parser completeness on the canonical
@@ -11,8 +12,19 @@
    This file holds statements only; proofs are in Sets/*.v. *)
 From Coq Require Import List Arith NArith Bool Lia Permutation.
 Import ListNotations.
-Require Import S1 VParse Py VMeaning SpecModel SpecParse Prefix SpecContains SortPerm SetModel SetsModel SetsBridge SetsFs SetsParse SetsLaws SpecOps VKeyEq.
+Require Import S1 VParse Py VMeaning SpecModel SpecParse Prefix SpecContains SortPerm SetModel SetsModel SetsBridge SetsFs SetsParse SetsLaws SetsLink SpecOps VKeyEq.
 Open Scope N_scope.
+
+(* 0. the premise wf_member / wf_set holds for every specifier / set the constructors accept *)
+Theorem C05_wf_specifier s sp : Specifier s = Some sp -> wf_member sp.
+Proof. exact (Specifier_wf_member s sp). Qed.
+Print Assumptions C05_wf_specifier.
+Theorem C05_wf_set s p S : SpecifierSet s p = Some S -> wf_set S.
+Proof. exact (SpecifierSet_wf s p S). Qed.
+Print Assumptions C05_wf_set.
+Theorem C05_wf_set_of_objects l p : Forall built l -> wf_set (SpecifierSet_of l p).
+Proof. exact (SpecifierSet_of_wf l p). Qed.
+Print Assumptions C05_wf_set_of_objects.
 
 (* 1. with pre-releases enabled a set matches exactly when every member matches; every member gives an answer *)
 Theorem C05_conjunction S item c : wf_set S -> Version item = Some c ->
@@ -20,6 +32,12 @@ Theorem C05_conjunction S item c : wf_set S -> Version item = Some c ->
   (forall m, In m (ms S) -> exists b, contains (m_sp m) (m_ov m) (Some true) item = Ans b).
 Proof. exact (set_conjunction S item c). Qed.
 Print Assumptions C05_conjunction.
+
+Theorem C05_conjunction_text s p S item c : SpecifierSet s p = Some S -> Version item = Some c ->
+  set_contains S (Some true) None item = Ans (forallb (fun m => accepts m item) (ms S)) /\
+  (forall m, In m (ms S) -> exists b, contains (m_sp m) (m_ov m) (Some true) item = Ans b).
+Proof. intros H. exact (set_conjunction S item c (SpecifierSet_wf s p S H)). Qed.
+Print Assumptions C05_conjunction_text.
 
 (* 2. the empty set matches everything (every final release whatever the setting) *)
 Theorem C05_empty_matches_everything S b inst item c : ms S = [] -> Version item = Some c ->
@@ -126,8 +144,8 @@ Proof. split; [exact d19_is_a_specifier | exact str_reparse_refuted_D19]. Qed.
 Print Assumptions C05_str_reparse_refuted_D19.
 
 (* NOT PROVED here (covered by correspondence and the law.s.* cases only):
-   - wf_member for every constructor-accepted specifier (lead: SpecLink.compare_op_total) and `respects` for differently spelled
-     equal clauses (C10: equal specifiers match the same candidates);
+   - `respects` for differently spelled equal clauses (that is C10: equal specifiers match the same candidates); it is proved
+     here only for clause lists without such pairs (C05_respects_literal);
    - `reparses sp` for every constructor-accepted comma-free specifier (C12 completeness of the specifier scanner on str(sp)). *)
 
 (* non-vacuity: ">=1.0" is a wf_member, " >=1.0 ,, <2 " parses to a two-member set that contains 1.5 and not 2.0,
